@@ -64,3 +64,39 @@ func Renumber(g *Grammar, base int) int {
 	}
 	return id
 }
+
+// SameScopeDup reports whether some label name is bound twice in one scope of
+// e (such a grammar is outside pigeon's input domain: labels of one scope
+// become parameters of one method).
+func SameScopeDup(e *Expr) bool {
+	dup := false
+	var walk func(e *Expr, sc map[string]bool)
+	walk = func(e *Expr, sc map[string]bool) {
+		switch e.K {
+		case KAction:
+			walk(e.Kids[0], sc)
+		case KLabel:
+			if sc[e.Name] {
+				dup = true
+			}
+			sc[e.Name] = true
+			walk(e.Kids[0], map[string]bool{})
+		case KSeq:
+			for _, k := range e.Kids {
+				walk(k, sc)
+			}
+		case KChoice:
+			for _, k := range e.Kids {
+				walk(k, map[string]bool{})
+			}
+		case KAnd, KNot, KOpt, KStar, KPlus:
+			walk(e.Kids[0], map[string]bool{})
+		case KRecover:
+			inner := map[string]bool{}
+			walk(e.Kids[0], inner)
+			walk(e.Kids[1], inner)
+		}
+	}
+	walk(e, map[string]bool{})
+	return dup
+}
